@@ -644,7 +644,7 @@ def unused_variable(sm, case):
 def unknown_directive(sm, case):
     for c, lst, i, parent, s in _positions(sm, case, lambda s, p: True):
         (s[3] if s[0] == "f" else s[2]).append(["nope", {}])
-        yield "unknown-directive:%s" % {"f": "field", "i": "inline", "s": "spread"}[s[0]], c
+        yield "unknown-directive:%s" % ({"f": "field", "s": "spread"}.get(s[0]) or ("inline-typed" if s[1] else "inline-untyped")), c
     for oi in range(len(case["doc"]["ops"])):
         c = _clone(case)
         c["doc"]["ops"][oi]["dirs"].append(["nope", {}])
@@ -674,7 +674,7 @@ def misplaced_directive(sm, case):
         yield "misplaced-directive:include-on-fragment-definition", c
     for c, lst, i, parent, s in _positions(sm, case, lambda s, p: True):
         (s[3] if s[0] == "f" else s[2]).append(["deprecated", {}])
-        yield "misplaced-directive:deprecated-on-%s" % {"f": "field", "i": "inline", "s": "spread"}[s[0]], c
+        yield "misplaced-directive:deprecated-on-%s" % ({"f": "field", "s": "spread"}.get(s[0]) or ("inline-typed" if s[1] else "inline-untyped")), c
     for oi, op in enumerate(case["doc"]["ops"]):
         for vi in range(len(op["vars"])):
             c = _clone(case)
@@ -686,18 +686,46 @@ def misplaced_directive(sm, case):
 
 @operator("repeated-directive", "UniqueDirectivesPerLocationChecker")
 def repeated_directive(sm, case):
+    """the same directive twice at one location, at EVERY location kind of an executable document.
+    Where the schema defines @tag (legal everywhere) it is used, so that only this rule is broken;
+    otherwise @skip / @include on the three locations where they are legal."""
+    has_tag = any("@tag" in d for d in sm.get("directives", ()))
+    kinds = {"f": "field", "i": "inline", "s": "spread"}
+
+    def lockind(s_):
+        if s_[0] == "i":
+            return "inline-typed" if s_[1] else "inline-untyped"
+        return kinds[s_[0]]
+
     for c, lst, i, parent, s in _positions(sm, case, lambda s, p: not (s[3] if s[0] == "f" else s[2])):
         d = s[3] if s[0] == "f" else s[2]
-        d.append(["skip", {"if": "false"}])
-        d.append(["skip", {"if": "false"}])
-        yield "repeated-directive:%s:identical" % {"f": "field", "i": "inline", "s": "spread"}[s[0]], c
+        if has_tag:
+            d.extend([["tag", {}], ["tag", {"n": "1"}]])
+        else:
+            d.extend([["skip", {"if": "false"}], ["skip", {"if": "false"}]])
+        yield "repeated-directive:%s:identical" % lockind(s), c
     for c, lst, i, parent, s in _positions(sm, case, lambda s, p: not (s[3] if s[0] == "f" else s[2])):
         d = s[3] if s[0] == "f" else s[2]
         d.append(["include", {"if": "true"}])
         d.append(["skip", {"if": "false"}])
         d.append(["include", {"if": "true"}])
-        yield "repeated-directive:%s:interleaved" % {"f": "field", "i": "inline", "s": "spread"}[s[0]], c
-    # repeated unknown-location directives would break two rules; stay with skip/include.
+        yield "repeated-directive:%s:interleaved" % lockind(s), c
+    if not has_tag:
+        return
+    for oi, op in enumerate(case["doc"]["ops"]):
+        c = _clone(case)
+        c["doc"]["ops"][oi]["dirs"].extend([["tag", {}], ["tag", {}]])
+        yield "repeated-directive:%s-operation:identical" % op.get("kind", "query"), c
+        for vi in range(len(op["vars"])):
+            c = _clone(case)
+            v = c["doc"]["ops"][oi]["vars"][vi]
+            v[1] = v[1] + (" = " + v[2] if v[2] is not None else "") + " @tag @tag(n: 2)"
+            v[2] = None
+            yield "repeated-directive:variable-definition:identical", c
+    for k in range(len(case["doc"]["frags"])):
+        c = _clone(case)
+        c["doc"]["frags"][k][2].extend([["tag", {}], ["tag", {}]])
+        yield "repeated-directive:fragment-definition:identical", c
 
 
 # =============================================================================================
@@ -794,23 +822,58 @@ def missing_required_argument(sm, case):
         yield "missing-required-argument:directive:%s" % {"f": "field", "i": "inline", "s": "spread"}[s[0]], c
 
 
+DUP_INPUT_LITERALS = {
+    # argument type -> [(tag, literal)]; In = {a: Int, b: [String!], c: In2 {a: Int, b: [String!]}}
+    "In": [
+        ("adjacent", "{a: 1, a: 1}"),
+        ("scalar-between", "{a: 1, b: [], a: 2}"),
+        ("nested-object-between", "{a: 1, c: {a: 2}, a: 3}"),
+        ("nested-object-before", "{c: {a: 2}, a: 1, a: 3}"),
+        ("nested-object-after", "{a: 1, a: 3, c: {a: 2}}"),
+        ("nested-object-between-other-name", "{b: [], c: {a: 2}, b: []}"),
+        ("inside-nested", "{c: {a: 1, a: 1}}"),
+        ("inside-nested-scalar-between", "{c: {a: 1, b: [], a: 2}}"),
+        ("inside-nested-with-outer-namesake", "{a: 0, c: {a: 1, a: 2}}"),
+        ("inside-nested-then-outer-namesake", "{c: {a: 1, a: 2}, a: 0}"),
+        ("duplicated-nested-object", "{c: {a: 1}, a: 2, c: {a: 3}}"),
+    ],
+    "[In]": [
+        ("list-item-adjacent", "[{a: 1}, {a: 1, a: 2}]"),
+        ("list-item-nested-between", "[{a: 1}, {a: 1, c: {a: 2}, a: 3}, {a: 4}]"),
+        ("first-list-item", "[{a: 1, c: {a: 2}, a: 3}, {a: 4}]"),
+    ],
+}
+
+
 @operator("dup-input-field", "UniqueInputFieldNamesChecker")
 def dup_input_field(sm, case):
     def pred(s, p):
         fd = _fdef(sm, p, s) if s[0] == "f" else None
-        return fd is not None and any(a["type"] == "In" for a in fd["args"].values())
+        return fd is not None and any(a["type"] in DUP_INPUT_LITERALS for a in fd["args"].values())
 
     for c0, lst0, i0, parent, s0 in _positions(sm, case, pred):
-        an = [an for an, a in _fdef(sm, parent, s0)["args"].items() if a["type"] == "In"][0]
-        if "$" in s0[4].get(an, ""):
-            continue
-        for tag, text in (("same-value", "{a: 1, a: 1}"), ("different-value", "{a: 1, b: [], a: 2}"), ("nested", "{c: {a: 1, a: 1}}")):
-            c = _clone(c0)
-            l2 = _same_container(sm, c0, c, lst0)
-            s = l2[i0]
-            s[4] = dict(s[4])
-            s[4][an] = text
-            yield "dup-input-field:%s" % tag, c
+        fd = _fdef(sm, parent, s0)
+        for an, a in fd["args"].items():
+            if a["type"] not in DUP_INPUT_LITERALS or "$" in s0[4].get(an, ""):
+                continue
+            for tag, text in DUP_INPUT_LITERALS[a["type"]]:
+                c = _clone(c0)
+                l2 = _same_container(sm, c0, c, lst0)
+                s = l2[i0]
+                dict_args(s, [(an, text)])
+                yield "dup-input-field:%s:argument" % tag, c
+            if a["type"] == "In" and an not in s0[4]:
+                # as the default value of a variable used at that argument
+                for tag, text in DUP_INPUT_LITERALS["In"][2:4] + DUP_INPUT_LITERALS["In"][6:7]:
+                    c = _clone(c0)
+                    l2 = _same_container(sm, c0, c, lst0)
+                    s = l2[i0]
+                    name = O._fresh(_all_var_names(c["doc"]), ["dv", "dupdefault"])
+                    for op in _reaching_ops(c["doc"], l2):
+                        op["vars"].append([name, "In", text])
+                    c["vars"][name] = [OMIT]
+                    dict_args(s, [(an, "$" + name)])
+                    yield "dup-input-field:%s:variable-default" % tag, c
 
 
 # variable positions ---------------------------------------------------------------------------
@@ -1184,6 +1247,13 @@ def hand_seeds():
             [["DogBits", "Dog", [], [F("barks"), F("legs")]], ["D2", "Pet", [], [F("n")]]],
         ),
         "vars": {},
+    }))
+    out.append(("H", {
+        "doc": mkdoc(
+            [mkop([I(None, [F("c")]), I("Q", [F("d")]), SP("Loc"), F("echo", args={"i": "$v"})], name="Locs", vars_=[["v", "Int", None]])],
+            [["Loc", "Q", [], [F("fl")]]],
+        ),
+        "vars": {"v": [OMIT, 1]},
     }))
     return out
 
